@@ -1,5 +1,6 @@
 import Tickit.Model.XTermDrv
 import Tickit.Model.XTermOut
+import Tickit.Model.XTermPenRgb
 import Tickit.Gen.XTermFacts
 import Tickit.Gen.TermBuf
 import Tickit.Driver.Common
@@ -7,7 +8,7 @@ import Tickit.Driver.Common
   Engine `xterm` (C09).
     new L C slrm colon rgb [vis blink] (slrm / vis / blink = DECRPM reply values 0..4 for modes 69 / 25 / 12)
     resize L C | goto l c | move d r | print <hex> | printn <hex> n | erasech n moveend | clear
-    scroll top left lines cols downward rightward | setpen [bg=N] [rv=B] | chpen [bg=N] [rv=B]
+    scroll top left lines cols downward rightward | setpen [bg=N] [bgrgb=RRGGBB] [rv=B] | chpen [bg=N] [bgrgb=RRGGBB] [rv=B]
     printf <hex> [d] | outbuf N | flush | pause | resume | stop | start
   Model observation: `<hex bytes> ret=<r>` (exactly what harness/xterm.c prints); the bytes are those the OUTPUT
   FUNCTION receives during the operation (Model/XTermOut.lean: the driver's bytes behind term.c's output buffer).
@@ -29,6 +30,8 @@ open Tickit Tickit.Driver Tickit.XTermDrv Tickit.VT
 
 structure St where
   drv : Drv
+  /-- the RGB8 value the cached pen's background carries next to its index (`tt->pen`: `valid.bg_rgb8`, `bg_rgb8`) -/
+  bgRgb : Option RGB8 := none
   /-- the reference terminal's screen after every byte the output function has received so far -/
   vt : VTState
   live : Bool
@@ -235,17 +238,35 @@ def specCheck (req : Request) (vt vt' : VTState) (ret : Int) (bytes : List UInt8
       (firstNonEmpty [commonCheck vt vt', gridCheck vt' (Spec.scrollGrid rect d r vt)], true)
     else ("", false)
 
-def parsePen : List String → Option PenReq
-  | [] => some ⟨none, none⟩
+def hexNat? (s : String) : Option Nat :=
+  s.toList.foldl (fun acc ch => do
+    let a ← acc
+    let d ← (if '0' ≤ ch ∧ ch ≤ '9' then some (ch.toNat - 48) else if 'a' ≤ ch ∧ ch ≤ 'f' then some (ch.toNat - 87)
+             else if 'A' ≤ ch ∧ ch ≤ 'F' then some (ch.toNat - 55) else none)
+    some (a * 16 + d)) (some 0)
+
+def parsePen : List String → Option PenReqX
+  | [] => some ⟨⟨none, none⟩, none⟩
   | t :: rest => do
     let p ← parsePen rest
     if t.startsWith "bg=" then
       let v ← (t.drop 3).toString.toInt?
-      some { p with bg := some v }
+      some { p with base := { p.base with bg := some v } }
+    else if t.startsWith "bgrgb=" then
+      let h := (t.drop 6).toString
+      if h.length ≠ 6 then none else
+      let v ← hexNat? h
+      some { p with bgRgb := some ⟨v / 65536, v / 256 % 256, v % 256⟩ }
     else if t.startsWith "rv=" then
       let v ← (t.drop 3).toString.toInt?
-      some { p with rv := some (v ≠ 0) }
+      some { p with base := { p.base with rv := some (v ≠ 0) } }
     else none
+
+/-- The cached pen with its RGB8 background. -/
+def St.cacheX (st : St) : PenCacheX := ⟨st.drv.pen, st.bgRgb⟩
+
+/-- The cached pen as the specification reads it (background = the colour asked for). -/
+def St.specPen (st : St) : PenCache := st.cacheX.spec st.drv.caps
 
 /-- Implementation observation `<hex> ret=<n>` → bytes and return value. -/
 def parseObs (impl : String) : Option (List UInt8 × Int) :=
@@ -386,11 +407,13 @@ def doRequest (st : St) (req : Request) (viaPrintf : Option (List UInt8)) (impl 
       | some (w, k) => let (st', v) := deferred st vt' unk w k true; (st', mobs, v)
       | none => let (st', v) := deferred st vt' unk st.want st.curKnown false; (st', mobs, v)
 
-def doPen (st : St) (isSet : Bool) (pen : PenReq) (impl : String) : St × String × String :=
-  let (cache', bytes) := if isSet then setpen st.drv.caps st.drv.pen pen else chpen st.drv.caps st.drv.pen pen
+def doPen (st : St) (isSet : Bool) (pen : PenReqX) (impl : String) : St × String × String :=
+  let (cacheX', bytes) := if isSet then setpenX st.drv.caps st.cacheX pen else chpenX st.drv.caps st.cacheX pen
+  -- the specification's reading of the new cache: the background is the colour asked for (RGB8 if the terminal can)
+  let cache' := cacheX'.spec st.drv.caps
   let (out', del) := emit st.out fun o => XTermOut.send o bytes
   let mobs := showDelivered del "ret=1"
-  let st1 := { st with drv := { st.drv with pen := cache' }, out := out' }
+  let st1 := { st with drv := { st.drv with pen := cacheX'.base }, bgRgb := cacheX'.bgRgb, out := out' }
   match parseObs impl with
   | none => (st1, mobs, "")
   | some (ibytes, _) =>
@@ -488,7 +511,7 @@ def doPause (st : St) (stop : Bool) (impl : String) : St × String × String :=
     attributes as the cached pen says (`Spec.PenInv`), and DECLRMM set if the DECSLRM capability is (still) claimed
     (`Spec.CapsOK`); screen content and cursor untouched. -/
 def doResume (st : St) (impl : String) : St × String × String :=
-  let (out', del) := emit st.out fun o => XTermOut.resume fx st.drv.caps st.drv.pen o
+  let (out', del) := emit st.out fun o => (TermBuf.termResume o).bind fun o => XTermOut.send o (resumeBytesX fx st.drv.caps st.cacheX)
   let mobs := showDelivered del s!"slrm={b01 st.drv.caps.slrm}"
   let st1 := { st with out := out' }
   match parseObsSlrm impl with
@@ -498,7 +521,7 @@ def doResume (st : St) (impl : String) : St × String × String :=
     let unk := st.unk + unknownSeqs ibytes st.vt
     let st2 := { st1 with paused := false, claim := islrm }
     -- what resume asks for: the cached pen's attributes; DECLRMM whatever it is now, subject to the claim
-    let w := penApply st.drv.pen { st.want with rv := false }
+    let w := penApply st.specPen { st.want with rv := false }
     if st.bufN = 0 then
       let verdict := if st.valid then syncCheck st2 vt' { w with declrmm := vt'.declrmm } st.curKnown unk true true else ""
       (resync st2 vt', mobs, verdict)
